@@ -26,6 +26,9 @@ CHECKS = {
  'C04': dict(cat='model_checking', engine='E1', tech='explicit-state exploration of the private cache state of real objects (generic deep digest) + complete depth-2 history enumeration, differential against the first-call outcome',
    text='Part A enumerates ordered pairs of a ~110-query alphabet (accessors with every branch/kind/fill, spreading pressure below/inside/edge/above, exports, every characterisation entry point, fitting incl. user bounds, IAST helpers, adsorbate thermodynamics; heavy kernels in thorough) on freshly built objects; Part B runs a BFS to fixpoint (quick: depth 3) over the private state of all objects and library modules (interpolators, CoolProp state, module caches, lru_caches, class-level containers observed generically) under the cache-relevant sub-alphabet. In every state every query must give its first-call outcome (12 significant digits or the same error kind) and leave every object observably unchanged.',
    note='Fixed alphabet; private state observed through __dict__/module containers/function caches; state inside C extensions other than CoolProp (T,Q,p) only covered by part A.', ref='§4 C04'),
+ 'C05': dict(cat='exploration', engine='E2', tech='bounded-exhaustive enumeration of construction routes, single content edits and length-1/2 call histories; differential on identifiers (no expected hashes)',
+   text='A finite route alphabet (54 routes over metadata-only, point, model and fitted-model templates: literal types, containers, row labellings, column order, branch dtypes, metadata order, from_isotherm, JSON round trip, aliases, shorthands) must give one identifier / == / list membership, also in 4 child processes with other PYTHONHASHSEEDs; a content-edit alphabet (every metadata key, unit label, material, adsorbate, temperature, every data cell +1e-6, every branch mark, model parameters incl. small-magnitude ones, ranges, name) must change it while every cell +1e-10 must not; after every history of length 1 and 2 over 17 public reads and mutations (conversions, in-place edits) the identifier must equal that of an isotherm rebuilt from the resulting content.',
+   note='identifier equality only (md5 strings); the route/edit alphabets are fixed lists.', ref='§4 C05'),
 }
 
 def main():
